@@ -54,24 +54,24 @@ mod set_reach__srcpar;
 mod cp__topar;
 mod bool_lat__par;
 mod lat_multi_improve__to;
-mod count_paths__mrt;
-mod count_paths__srcpar;
-mod neg_basic__gen;
-mod neg_basic__perm1;
-mod agg_minmaxsum__pari;
-mod agg_lattice__pari;
-mod neg_rec_after__pari;
-mod agg_empty__pari;
-mod disj__run;
-mod disj__runpar;
-mod disj_nested__ser;
-mod pat_args__exp;
-mod multi_head_disj__par;
-mod neg_in_disj__exppar;
-mod mac_basic__gen;
-mod mac_basic__exp;
-mod mac_nested__par;
-mod mac_disj__exppar;
+mod count_paths__to;
+mod count_paths__redecl;
+mod neg_basic__topar;
+mod neg_basic__init;
+mod neg_basic__exppar;
+mod agg_depth__topar;
+mod agg_user__pari;
+mod agg_bound_mix__pari;
+mod disj__pari;
+mod disj__src2;
+mod disj__permpar;
+mod pat_args__ser;
+mod rep_expr__exp;
+mod neg_in_disj__par;
+mod mac_basic__topar;
+mod mac_basic__init;
+mod mac_capture__exp;
+mod mac_disj__par;
 
 fn lookup(name: &str) -> fn() -> Box<dyn Driven> {
    match name {
@@ -121,24 +121,24 @@ fn lookup(name: &str) -> fn() -> Box<dyn Driven> {
       "cp__topar" => cp__topar::make,
       "bool_lat__par" => bool_lat__par::make,
       "lat_multi_improve__to" => lat_multi_improve__to::make,
-      "count_paths__mrt" => count_paths__mrt::make,
-      "count_paths__srcpar" => count_paths__srcpar::make,
-      "neg_basic__gen" => neg_basic__gen::make,
-      "neg_basic__perm1" => neg_basic__perm1::make,
-      "agg_minmaxsum__pari" => agg_minmaxsum__pari::make,
-      "agg_lattice__pari" => agg_lattice__pari::make,
-      "neg_rec_after__pari" => neg_rec_after__pari::make,
-      "agg_empty__pari" => agg_empty__pari::make,
-      "disj__run" => disj__run::make,
-      "disj__runpar" => disj__runpar::make,
-      "disj_nested__ser" => disj_nested__ser::make,
-      "pat_args__exp" => pat_args__exp::make,
-      "multi_head_disj__par" => multi_head_disj__par::make,
-      "neg_in_disj__exppar" => neg_in_disj__exppar::make,
-      "mac_basic__gen" => mac_basic__gen::make,
-      "mac_basic__exp" => mac_basic__exp::make,
-      "mac_nested__par" => mac_nested__par::make,
-      "mac_disj__exppar" => mac_disj__exppar::make,
+      "count_paths__to" => count_paths__to::make,
+      "count_paths__redecl" => count_paths__redecl::make,
+      "neg_basic__topar" => neg_basic__topar::make,
+      "neg_basic__init" => neg_basic__init::make,
+      "neg_basic__exppar" => neg_basic__exppar::make,
+      "agg_depth__topar" => agg_depth__topar::make,
+      "agg_user__pari" => agg_user__pari::make,
+      "agg_bound_mix__pari" => agg_bound_mix__pari::make,
+      "disj__pari" => disj__pari::make,
+      "disj__src2" => disj__src2::make,
+      "disj__permpar" => disj__permpar::make,
+      "pat_args__ser" => pat_args__ser::make,
+      "rep_expr__exp" => rep_expr__exp::make,
+      "neg_in_disj__par" => neg_in_disj__par::make,
+      "mac_basic__topar" => mac_basic__topar::make,
+      "mac_basic__init" => mac_basic__init::make,
+      "mac_capture__exp" => mac_capture__exp::make,
+      "mac_disj__par" => mac_disj__par::make,
       _ => panic!("no such program variant in this shard: {}", name),
    }
 }
